@@ -40,7 +40,14 @@ ASSUMPTIONS = ['Gibbs-Duhem is evaluated by central differences with step 1e-3*m
                'assigned-groups pool: the vocabulary is every subgroup name that is unambiguous in thermo\'s table of the class, minus the ionic-liquid groups and the groups of later table revisions (their published R / Q '
                'differ between table versions: not decidable here); every drawn molecule holds at least one subgroup with Q > 0 (a molecule of zero surface area has no combinatorial term); counts <= 6, <= 4 subgroups per molecule',
                'a model value does not depend on numpy\'s floating point error state: the value under errstate(all=ignore) - the behaviour of the compiled (numba) form, which cannot raise - is judged like any other value',
-               'an integer (or numpy float64) temperature denotes the same temperature as the equal Python float']
+               'an integer (or numpy float64 / int64) temperature denotes the same temperature as the equal Python float',
+               'added pools only (the bounds of the first pool are unchanged): (a) value / permutation / twin / sub-composition comparisons allow 1e-12 max(1, |ln gamma|) relative, since exp() turns the absolute rounding '
+               'of ln(gamma) into a relative one (observed 3.5e-15 |ln gamma| at ln gamma = -368; a coefficient that underflows to 0 in the reference must be 0; a reference that leaves the range of math.exp is counted '
+               'value-reference:reference-out-of-range, not judged); (b) the plain Gibbs-Duhem bound is widened by twice the measured difference between the sums at steps eps and eps/2 (its eps^2 truncation term '
+               'reached 6.5e-4 of the largest term in 16000 interior cases), the Richardson bound is unchanged (observed worst 0.043 of it over 60000 cases); a sum over members whose coefficient under- or overflowed '
+               'in the reference too is not formed (gd:not-formed:exp-out-of-range, 4 in 60000); (c) near a vertex (1 - x = 1e-9) the distance from one must be <= 1e-12, or <= 1e-2 of the distance at 1 - x = 1e-6, '
+               'or <= 1000 (1 - x) (published placeholder parameters such as a(ACOH, CCl4) = 10000 K push the quadratic regime below 1 - x ~ psi: CCl4 with traces of phenol and DMSO is 1 + 0.3 (1 - x) in both '
+               'implementations), and exactly one (1e-12) at the vertex itself']
 WITH = ('Water', 'Ethanol', 'Methanol', 'Propanol', 'Butanol', 'Hexane', 'Heptane', 'Octane', 'Benzene', 'Toluene', 'Acetone', 'EthylAcetate', 'AceticAcid')
 WITHOUT = ('N2', 'CO2')
 NIST_GROUPS = {'Water': {'H2O': 1}, 'Ethanol': {'CH3': 1, 'CH2': 1, 'OH prim': 1}, 'Propanol': {'CH3': 1, 'CH2': 2, 'OH prim': 1}, 'Butanol': {'CH3': 1, 'CH2': 3, 'OH prim': 1},
@@ -477,7 +484,7 @@ def run_case(case, rec):
             G2, _ = model(cls, list(case['ids']))
             xs = x[:n] / x[:n].sum()
             g2 = np.asarray(G2(xs.copy(), T), float)
-            rec.check(np.allclose(g[:n], g2, rtol=1e-12, atol=0), 'no-groups', f'perturbs/{tag}', f'gamma with inert members {g[:n].tolist()} != gamma on the renormalised sub-composition {g2.tolist()}')
+            rec.check(np.allclose(g[:n], g2, rtol=1e-12, atol=0) or (pool != 'base' and within_ln(g[:n], g2, 1e-12)), 'no-groups', f'perturbs/{tag}', f'gamma with inert members {g[:n].tolist()} != gamma on the renormalised sub-composition {g2.tolist()}')
         except Exception as e:
             rec.exception('no-groups', e, what=f'sub-model raised {type(e).__name__}: {e}')
     if case['kind'] == 'few-groups':
@@ -498,12 +505,15 @@ def run_case(case, rec):
         eps = 1e-3 * x[:n].min() / max(np.abs(d).max(), 1e-12)
         try:
             gp = np.asarray(G((x + eps * d).copy(), T), float); gm = np.asarray(G((x - eps * d).copy(), T), float)
+            gd_range(case, cls, ids, cs, n, T, ((x + eps * d, gp), (x - eps * d, gm)))
             dln = lnq(gp, gm, 2 * eps)
             terms = x * dln
             res = abs(terms.sum()); scale = np.abs(terms).max()
             s2h, slack = half_step(pool, G, x, d, eps, T, None, terms.sum())
             gd_judge(rec, res <= 1e-4 * scale + 1e-7 + slack, scale, 1e-7, 'gibbs-duhem', tag, 'interior', f'sum x_i dln(gamma_i)/ds = {terms.sum()!r} with largest term {scale!r} (x={x.tolist()}, T={T})', res / max(scale, 1e-300))
             gd_richardson(rec, G, x, d, eps, T, None, terms.sum(), scale, tag, 'interior', s2h)
+        except GdSkip:
+            rec.hit('gd:not-formed:exp-out-of-range')
         except Exception as e:
             rec.exception('gibbs-duhem', e, what=f'{cls} raised {type(e).__name__} near an interior point: {e}')
     # (2b) Gibbs-Duhem with relative steps x_i -> x_i (1 +- eps (u_i - ubar)): resolves trace, near-vertex and face compositions
@@ -517,6 +527,7 @@ def run_case(case, rec):
         eps = 1e-3
         try:
             gp = np.asarray(G((x + eps * d).copy(), T), float); gm = np.asarray(G((x - eps * d).copy(), T), float)
+            gd_range(case, cls, ids, cs, n, T, ((x + eps * d, gp), (x - eps * d, gm)), present)
             dln = lnq(gp[present], gm[present], 2 * eps)
             terms = x[present] * dln
             res = abs(terms.sum()); scale = np.abs(terms).max()
@@ -525,6 +536,8 @@ def run_case(case, rec):
                      f'sum x_i dln(gamma_i)/ds = {terms.sum()!r} with largest term {scale!r} along a relative step (x={x.tolist()}, T={T})', res / max(scale, 1e-300))
             gd_richardson(rec, G, x, d, eps, T, present, terms.sum(), scale, f'{tag}/relative-step/{case["kind"]}', f'relative-step/{case["kind"]}', s2h)
             rec.hit('gd:relative-step')
+        except GdSkip:
+            rec.hit('gd:not-formed:exp-out-of-range')
         except Exception as e:
             rec.exception('gibbs-duhem', e, what=f'{cls} raised {type(e).__name__} near a {case["kind"]} point: {e}')
     # (2c) Gibbs-Duhem with the members without group data moving too (their gamma is one: d ln(gamma) = 0)
@@ -533,6 +546,7 @@ def run_case(case, rec):
         eps = 1e-3 * x.min() / max(np.abs(d).max(), 1e-12)
         try:
             gp = np.asarray(G((x + eps * d).copy(), T), float); gm = np.asarray(G((x - eps * d).copy(), T), float)
+            gd_range(case, cls, ids, cs, n, T, ((x + eps * d, gp), (x - eps * d, gm)))
             dln = lnq(gp, gm, 2 * eps)
             terms = x * dln
             res = abs(terms.sum()); scale = np.abs(terms).max()
@@ -541,6 +555,8 @@ def run_case(case, rec):
                      f'sum x_i dln(gamma_i)/ds = {terms.sum()!r} with largest term {scale!r}, inert members moving (x={x.tolist()}, d={d.tolist()}, T={T})', res / max(scale, 1e-300))
             gd_richardson(rec, G, x, d, eps, T, None, terms.sum(), scale, f'{tag}/inert-moving', 'inert-moving', s2h)
             rec.hit('gd:inert-moving')
+        except GdSkip:
+            rec.hit('gd:not-formed:exp-out-of-range')
         except Exception as e:
             rec.exception('gibbs-duhem', e, what=f'{cls} raised {type(e).__name__} near an interior point (inert members moving): {e}')
     # (3) permutation equivariance (fresh model object per permutation; exercises the per-tuple cache)
@@ -555,7 +571,7 @@ def run_case(case, rec):
         try:
             Gp, _ = model(cls, [ids[i] for i in p])
             gpv = np.asarray(Gp(x[list(p)].copy(), T), float)
-            ok = gpv.shape == g.shape and np.allclose(gpv, g[list(p)], rtol=1e-12, atol=0)          # observed worst 3.8e-15 (order of the group sums)
+            ok = gpv.shape == g.shape and (np.allclose(gpv, g[list(p)], rtol=1e-12, atol=0) or (pool != 'base' and within_ln(gpv, g[list(p)], 1e-12)))   # observed worst 3.8e-15 (order of the group sums); added pools: times max(1, |ln gamma|)
             rec.check(ok, 'permutation', tag, f'gamma depends on the position in the chemical list: order {[ids[i] for i in p]} gives {gpv.tolist()} expected {g[list(p)].tolist()}',
                       residual=relmax(gpv, g[list(p)]) if ok else None)
             if not ok: break
@@ -632,7 +648,7 @@ def added_call_forms(case, rec, G, cls, ids, n, T, g, tag):
     tw = case.get('twin')
     if tw:
         a, b = tw
-        ok = bool(np.isfinite(g[a]) and np.isfinite(g[b]) and abs(g[a] - g[b]) <= 1e-12 * abs(g[b]))
+        ok = within_ln(g[[a]], g[[b]], 1e-12)
         rec.check(ok, 'permutation', f'{tag}/twin-members', f'members {a} and {b} of {ids} carry the same assignment {case["assigned"][ids[a]]["groups"]} but gamma = {g[a]!r} / {g[b]!r} (x={x.tolist()}, T={T})',
                   residual=abs(g[a] / g[b] - 1) if ok else None)
         rec.hit('twin-members')
@@ -662,6 +678,27 @@ def gd_judge(rec, ok, scale, floor, clause, key, label, what, residual):
         if clause == 'gibbs-duhem-richardson': rec.hit('gd:resolved:' + label)
     else:
         rec.hit(('gd:unresolved:' if clause == 'gibbs-duhem-richardson' else 'gd:unresolved-plain:') + label)
+
+
+class GdSkip(Exception):
+    pass
+
+
+def gd_range(case, cls, ids, cs, n, T, points, sel=None):
+    """added pools: a coefficient that under- or overflowed (exp(ln gamma) = 0 or inf; recorded: 1,1-dimethylcyclohexane dilute in pyridine at 266 K, Dortmund, in both implementations) has no
+    logarithm in floating point: the Gibbs-Duhem sum at that point is not formed (counted, not judged) when the reference is out of range at the same point too; a zero / inf / nan
+    where the reference has a positive finite value is judged as before (the sum is nan: over every bound)."""
+    if case.get('pool', 'base') == 'base': return
+    for xq, gq in points:
+        gq = np.asarray(gq, float)[:n]
+        odd = ~(np.isfinite(gq) & (gq > 0))
+        if sel is not None:
+            keep = np.zeros(n, bool); keep[[k for k in sel if k < n]] = True; odd &= keep          # members that enter the sum
+        if not odd.any(): continue
+        xs = float(xq[:n].sum())
+        groups = [groups_of(cls, ids[k], cs[k]) for k in range(n)]
+        r = ref_gammas(cls, groups, xq[:n] / xs, T) if (xs > 0 and all(groups)) else None
+        if r is None or all((not np.isfinite(r[k])) or r[k] <= 0 for k in np.where(odd)[0]): raise GdSkip()
 
 
 def half_step_sum(G, x, d, eps, T, sel):
@@ -787,7 +824,7 @@ def extra_clauses(case, rec, G, cs, cls, ids, n, T, g, tag=None, wp=''):
                 # nan (member absent from every group sum) is mapped to one by the functional form: tolerated only for an absent member whose coefficient from the model object is exactly one
                 nan_ok = ga.shape == ref.shape and all((a == a) or (xs[k] == 0 and ref[k] == 1.0) for k, a in enumerate(ga))
                 rec.check(nan_ok, 'functional-form', f'{tag}/activity_coefficients/nan-for-present-member', f'{cls}.activity_coefficients(x_sub={xs.tolist()}, T) = {ga.tolist()} has nan for a member that is present (Gamma(x, T) = {ref.tolist()})')
-                okv = ga.shape == ref.shape and all((a == b) or (a != a) or abs(a - b) <= 1e-12 * abs(b) for a, b in zip(ga, ref))
+                okv = ga.shape == ref.shape and all((a == b) or (a != a) or abs(a - b) <= 1e-12 * abs(b) or (wp and b > 0 and abs(a - b) <= 1e-12 * b * abs(np.log(b))) for a, b in zip(ga, ref))
                 rec.check(okv, 'functional-form', f'{tag}/activity_coefficients', f'{cls}.activity_coefficients(x_sub, T) = {ga.tolist()} differs from Gamma(x, T)[with groups] = {ref.tolist()}')
                 if cls in GROUP_CLASSES and n >= 2:
                     groups = [groups_of(cls, ids[k], cs[k]) for k in range(n)]
